@@ -432,9 +432,23 @@ def _info_vs_listing(ctx, res):
         tree.write("d/named.txt", b"n\n")
         tree.write("d/.names", b"Path=./named.txt\nName=Renamed by a names block\n")
         tree.write("d/sub/x.txt", b"x\n")
+        tree.write("d/capped.txt.abstract", b"abstract of the capped file\n")
+        tree.write("d/named.txt.3d", b"three-d data of the named file\n")
+        tree.write("d/named.txt.keywords", b"key words\n")
         for hl, hname in ((None, "umn"), (pyg.DIR_HANDLERS, "dir")):
             cfg = pyg.make_config(tree.root, hl, **{"handlers.dir.DirHandler|cachetime": "0"})
             menu = pyg.request(reqs.build("gopher", "/d"), cfg).out or b""
+            # side files of an item show in the '$' listing of its directory whatever else names the item (.cap file, link block)
+            dollar = pyg.request(reqs.build("gopherp", "/d", gplus="$"), cfg).out or b""
+            res.evaluations += 1
+            for item_, block_, text_ in (("/d/capped.txt", b"+ABSTRACT:", b" abstract of the capped file"), ("/d/named.txt", b"+3D:", b" three-d data of the named file"),
+                                         ("/d/named.txt", b"+KEYWORDS:", b" key words")):
+                part = dollar[dollar.find(b"\t" + item_.encode() + b"\t"):]
+                part = part[:part.find(b"+INFO: ", 1)] if b"+INFO: " in part[1:] else part
+                if block_ + b"\r\n" + text_ + b"\r\n" not in part:
+                    res.violation("C15:sidecar-block-missing:" + hname, "an item's side file does not show as its block in the '$' listing of its directory",
+                                  {"item": item_, "block": block_, "handlers": hname}, observed=part[:300], required=block_ + b" " + text_,
+                                  replay={"virtual": True, "selector": "/d", "handlers": "shipped" if hname == "umn" else "dir"})
             for ln in menu.split(b"\r\n"):
                 f = ln.split(b"\t")
                 if len(f) < 4 or not f[1].startswith(b"/d/"):
